@@ -13,7 +13,7 @@ import (
 	"pgregory.net/rapid"
 )
 
-const rule = "generated scenario = initial data, one victim transaction (optimistic | pessimistic with locked statements; on unistore also async-commit / 1PC) of 1-5 writes (set, delete, insert, lock-only) over 1-4 keys in 1-3 regions (commit batch size 1 or default, committer concurrency 1 or default, 1 or 3 stores), optionally a conflicting commit that makes the victim's Commit fail, and 1-4 recovery transactions of another client (get, batch-get, scan, reverse scan, optimistic write, pessimistic locked write); a fault-free run counts the N requests Commit issues (synchronous and background), then the scenario is re-run once per crash point i<N and mode (request i never delivered | delivered but the client dies before the answer), the victim client being dead (all its later requests fail) from that instant; then all locks expire, the recovery transactions run, an auditor resolves what is left and the raw MVCC records are read; oracle: single outcome and one commit ts over all written keys, outcome = committed if Commit had returned nil while alive, rolled back if it had returned a definite error, every recovery read equals the final truth at its snapshot (no partial view), no read blocked, no lock left, plus the C01 history rules; non-trivial = the dead client left at least one lock behind; distinct = scenario text + crash point"
+const rule = "generated scenario = initial data, one victim transaction (optimistic | pessimistic with locked statements; on unistore also async-commit / 1PC) of 1-5 writes (set, delete, insert, lock-only) over 1-4 keys in 1-3 regions (commit batch size 1 or default, committer concurrency 1 or default, 1 or 3 stores), optionally a conflicting commit that makes the victim's Commit fail, and 1-4 recovery transactions of another client (get, batch-get, scan, reverse scan, optimistic write, pessimistic locked write); a fault-free run counts the N requests Commit issues (synchronous and background), then the scenario is re-run once per crash point i<N and mode (request i never delivered | delivered but the client dies before the answer), the victim client being dead (all its later requests fail) from that instant; then all locks expire, the recovery transactions run, an auditor resolves what is left and the raw MVCC records are read; oracle: single outcome and one commit ts over all written keys, outcome = committed if Commit had returned nil while alive, rolled back if it had returned a definite error, every recovery read equals the final truth at its snapshot (no partial view), no read blocked, no lock left, non-trivial = the dead client left at least one lock behind; distinct = scenario text + crash point"
 
 func crashPoints(t *testing.T, backend sim.Backend) {
 	rec := ev.For(t, "C02", rule)
@@ -45,7 +45,10 @@ func crashPoints(t *testing.T, backend sim.Backend) {
 				t.Fatalf("crash recovery violates all-or-nothing / ack consistency:\n  crash point: %s at commit RPC #%d of %d\n  %s", mode, idx, n, o.Describe(p))
 			}
 		}
-		base := scen.Run(p, scen.Opts{})
+		// acknowledgement consistency, atomicity (always on), no partial snapshot (read), no lock left; the other
+		// isolation rules belong to C01
+		rules := map[string]bool{"ack": true, "read": true, "nolock": true}
+		base := scen.Run(p, scen.Opts{Rules: rules})
 		report(base, -1, "none", base.RPCs)
 		if base.Victim == nil {
 			return
@@ -69,7 +72,7 @@ func crashPoints(t *testing.T, backend sim.Backend) {
 		rec.Case(fmt.Sprintf("%s|none", p), false, []string{"crash=none", "base-commit=" + base.Victim.CommitClass}, nil)
 		for _, i := range points {
 			for _, mode := range []string{"kill", "killAfter"} {
-				o := scen.Run(p, scen.Opts{Faults: []sim.FaultSpec{{Type: "", Index: i, Action: mode}}, KillIfAlive: true})
+				o := scen.Run(p, scen.Opts{Faults: []sim.FaultSpec{{Type: "", Index: i, Action: mode}}, KillIfAlive: true, Rules: rules})
 				report(o, i, mode, n)
 				classes := []string{"crash=" + mode, "told=" + o.Told, "fate=" + o.Fate, fmt.Sprintf("left-locks=%v", o.LeftLocks > 0), "backend=" + backend.String()}
 				if i >= base.SyncRPCs {
